@@ -255,6 +255,17 @@ def analyze(ctx, want):
                 sr = S.fstr(r)
                 ok = "dedup" in sr and not re.search(r"dedup_by|retain|truncate|drain", sr)
                 ob("C02.d", "%s-get_match_transitions:only-exact-duplicates-removed" % tag, ok, "returns %s" % sr[:100], gm.loc())
+        # the same collection written as an iterator chain: flat_map over the transitions of every state, mapped to the
+        # (class, target) pair of the same transition, collected
+        for c_ in F.closures_of(gm):
+            ex_c, ps_c = run_fn(c_, F, LogModel())
+            for q in ret_paths(ps_c):
+                v = q.end[1]
+                if v[0] == "tuple" and len(v[1]) == 2 and "char_class" in S.fstr(v[1][0]) and "target_state" in S.fstr(v[1][1]):
+                    n += 1
+                    a_ = re.sub(r"^.*?char_class\(", "", S.fstr(v[1][0]))
+                    b_ = re.sub(r"^.*?target_state\(", "", S.fstr(v[1][1]))
+                    ob("C02.d", "%s-get_match_transitions:pair-of-the-same-transition" % tag, a_ == b_, "pair (%s, %s)" % (S.fstr(v[1][0])[:50], S.fstr(v[1][1])[:50]), c_.loc())
         its = [M.call_name(t) for bb, t in gm.calls(ADAPTERS)]
         ob("C02.d", "%s-get_match_transitions:all-states-and-transitions-visited" % tag, n >= 1 and not its, "%d push sites; adapters %s" % (n, its), gm.loc())
     def search_rule(fn_rx, key, src_word, hit_value, miss_value, cond_ok, inline=None):
